@@ -555,7 +555,13 @@ fn classify_single(inp: &Input) -> Option<Violation> {
         CellStatus::Signal(14) | CellStatus::Signal(24) => Some(viol("corrupt.hang", desc("no answer within the CPU/wall cap"))),
         CellStatus::Signal(6) => {
             // abort: an allocation beyond 64 x len + 1 MiB was refused (or the library aborted)
-            Some(viol("corrupt.abort", desc(&format!("process aborted (SIGABRT; allocation beyond {} bytes refused, or abort)", bound(inp.bytes.len())))))
+            // Known finding F51 is identified by the entry point: the v2 update format stores its
+            // columns run-length encoded, so a handful of bytes can declare millions of blocks and
+            // Update::decode_v2 materialises every one of them (memory proportional to the decoded,
+            // not to the encoded size).
+            let e = ENTRIES[inp.entry];
+            let v2_update = matches!(e, "Update::decode_v2" | "merge_updates_v2" | "diff_updates_v2" | "encode_state_vector_from_update_v2");
+            Some(viol(if v2_update { "corrupt.abort-v2-block-bomb" } else { "corrupt.abort" }, desc(&format!("process aborted (SIGABRT; allocation beyond {} bytes refused, or abort)", bound(inp.bytes.len())))))
         }
         CellStatus::Signal(s) => Some(viol("corrupt.signal", desc(&format!("process killed by {}", cell::signal_name(s))))),
         CellStatus::Broken(m) => Some(viol("corrupt.signal", desc(&format!("process died: {}", m)))),
